@@ -200,9 +200,11 @@ def krylov_svd(idx, rep, rule):
     if not rets:
         rep.undecided("back-substitution", rule.role, "the rule does not return a triple")
         return
-    role_of = {e.id: role for role, e in zip(("U", "Sigma", "V"), rets[-1].value.elts) if isinstance(e, ast.Name)}
+    def roles_at(r):
+        return {e.id: role for role, e in zip(("U", "Sigma", "V"), r.value.elts) if isinstance(e, ast.Name)}
+    common = [r for r in rets if getattr(getattr(r, "_origin", r), "_parent", None) is fi.node]
+    role_of_fn = roles_at(common[-1] if common else rets[-1])
     inline_defs = {id(getattr(r, "_origin", r)): [(role, e) for role, e in zip(("U", "Sigma", "V"), r.value.elts) if not isinstance(e, ast.Name)] for r in rets}
-    sym_env = {n: sym(role) for n, role in role_of.items()}
     solver_calls = []
     solver_outs = set()
     for st in df.body_nodes(fi.node):
@@ -210,6 +212,10 @@ def krylov_svd(idx, rep, rule):
             solver_outs |= {e.id for e in st.targets[0].elts if isinstance(e, ast.Name)}
     for label, stmts in blocks(fi):
         gram = None
+        # a branch that returns its own triple names its factors itself (`return right, Sigma, left` in one case, `left, Sigma, right` in the other)
+        own = [r for r in rets if any(getattr(r, "_origin", r) is st for st in stmts)]
+        role_of = roles_at(own[-1]) if own else role_of_fn
+        sym_env = {n: sym(role) for n, role in role_of.items()}
         for st in stmts:
             for c in [n for n in ast.walk(st) if isinstance(n, ast.Call)]:
                 f = ast.unparse(c.func)
